@@ -410,7 +410,7 @@ pub fn run_files(which: &str, tier: &str, seed: u64, model: &Model, corpus_lines
         return rep;
     }
     let delims: Vec<Vec<u8>> = if which == "C14" {
-        vec![b" ".to_vec(), b",".to_vec(), b"\t".to_vec(), b", ".to_vec(), b"".to_vec(), b" | ".to_vec(), b"::::".to_vec()]
+        vec![b" ".to_vec(), b",".to_vec(), b"\t".to_vec(), b", ".to_vec(), b"".to_vec(), b" | ".to_vec(), b"::::".to_vec(), "µ".as_bytes().to_vec(), " → ".as_bytes().to_vec()]
     } else {
         vec![b" ".to_vec(), b",".to_vec(), b"\t".to_vec()]
     };
